@@ -228,7 +228,7 @@ void h_column_dfs(void) {
   if (g_ret == 0 && !joined && cnt >= 2 && in_Glu.nextl == LC && in_dyn) __CPROVER_assert(0, "canary: dynamic scheme, L subscript storage exactly filled");
 #elif DEPTH == 1
   if (g_ret == 0 && joined && in_nseg == g_nseg0 + 1) __CPROVER_assert(0, "canary: jcol joins the supernode of jcol-1 after a dfs");
-  if (g_ret == 0 && !joined && cnt == 3 && in_lsub_end == 1) __CPROVER_assert(0, "canary: rows appended by the dfs");
+  if (g_ret == 0 && !joined && cnt >= 2 && in_lsub_end == 1) __CPROVER_assert(0, "canary: rows appended by the dfs");
 #else
   if (g_ret == 0 && in_nseg == g_nseg0 + 2 && in_parent[in_segrep[g_nseg0]] == in_segrep[g_nseg0 + 1]) __CPROVER_assert(0, "canary: dfs of depth two");
 #if ACOL >= 2
